@@ -89,6 +89,23 @@ CHECKS.update({
    note=NOTE_COMMON + "Find.v mirrors the `ignore` walker as configured by find.rs (trusted: ignore 0.4, regex for the generated pattern family, byte_unit for plain byte counts). follow: true and size x symlink are not judged; nested roots are not generated (a multi-root walk lists shared paths once per root). K18 (ignore files honoured when hidden: false) is suppressed only when every missing entry matches the planted glob.",
    technique="Coq proof over a mirror walker (iff / NoDup / permutation) + differential runs on real directory trees", design="5/C16"),
 })
+CHECKS.update({
+ "C12": dict(
+   text="Theorems over the pipelines of jinja::_render and set_vars, for EVERY evaluator satisfying three stated laws (text without opening delimiters renders to itself; `{{ x }}` renders to the string x holds; Coq's conservative plain_string implies the YAML reader returns that string): a literal parameter and a substituted value reach a force-string parameter byte for byte; vars / set_vars keep every plain string; K6 (second render) and K7 (YAML re-typing) are refuted by witnesses on a law-abiding evaluator. "
+        "Tie: ~400 (quick) metacharacter-weighted strings x 5 channels, one real rash process each, the file written by copy and the argv received by a helper compared byte for byte; command stdout/stderr/rc and `omit`.",
+   note=NOTE_COMMON + "minijinja and serde_yaml are NOT modelled: they are Section variables; the three laws are the trusted statements about them and are exactly what the run validates on the generated strings. Class predicates (plain_string, has_open) are evaluated by the extracted Coq functions.",
+   technique="Coq proof over the render pipelines with the template engine as an abstract oracle + byte-exact differential probes on the real binary", design="5/C12"),
+ "C14": dict(
+   text="PARTIAL (the kernel's execve/setuid contract cannot be modelled): theorems on the mirror of exec_transferring_pid - argv form passes program and every argument exactly as given, the cmd form's words are non-empty and whitespace-free, after a successful transfer no later step runs, a failing exec is an error. "
+        "Tie: the real binary execs a helper that records pid, argv, cwd, -e environment, uid/gid and exits with a chosen status (0-255); compared with the Popen PID, the given arguments, chdir, nobody's ids, the wait status and the marker log.",
+   note=NOTE_COMMON + "Trusted: execve keeps the PID, setgid/setuid drop privileges (kernel); supplementary groups out of scope.",
+   technique="Coq proof over the exec-request mirror + process-level observation of the real exec", design="5/C14"),
+ "C15": dict(
+   text="PARTIAL (fork, ipc-channel and waitpid are trusted): theorems on the value codec that carries the child's store to the parent - of_json (to_json v) = v for every value without an undefined inside (nested, unicode, numeric, boolean, none), hence the parent's store equals the child's; undefined does not survive (refuted). "
+        "Tie: programs of the C01/C02 generators run twice on the real binary, with and without become to nobody on every task: stdout, exit status, marker log, created files must be identical; uid inside/outside; K17 witness under a deadline.",
+   note=NOTE_COMMON + "The continuation-duplicating fork model of DESIGN section 5/C15 was not built: K17 is recorded with its replay, not proved on a model.",
+   technique="Coq proof of the store codec round trip + paired become/plain runs of the real binary", design="5/C15"),
+})
 REASONS = {p: "not yet built in this revision (see DESIGN.md section 9b build order)" for p in ALL}
 
 def main():
